@@ -519,7 +519,7 @@ func run(c *Ctx) {
 	globalBase = runtime.NumGoroutine()
 	im := NewImpl("C06", c.Seed, c.Tier)
 	im.Rule = "histories of routing updates (fresh, equal, older sequence, lower/higher epoch, replayed IDs, self/empty origin, duplicate notices, expiry of seen IDs) from 1-9 origins over 0-4 fake connections delivered to one real node step by step; a history is non-trivial when it contains at least one stale/equal/replayed update and at least one accepted one; distinct by the full history"
-	cf := &CaseFile{Dir: c.Out, Prop: "C06", Imports: []string{"Model.Flood"}, CaseType: "flood_case", CheckFn: "flood_check", PerShard: 60}
+	cf := &CaseFile{Dir: c.Out, Prop: "C06", Imports: []string{"Model.FloodCases"}, CaseType: "c06_case", CheckFn: "c06_check", PerShard: 60}
 	nh := 700
 	if c.Thorough() {
 		nh = 6000
@@ -539,6 +539,7 @@ func run(c *Ctx) {
 	if c.Thorough() {
 		exhaustiveSmall(c, im, cf)
 	}
+	concurrentDelivery(c, im, cf)
 	meshFloodBound(c, im)
 	Must(cf.Write())
 	Must(im.Write(c.Out))
@@ -571,7 +572,7 @@ func emitCase(cf *CaseFile, conns []string, steps []step, kinds []string, label 
 		cs[i] = CoqN(nm.id(cn))
 	}
 	init := fmt.Sprintf("{| ns_self := 1; ns_epoch := %d; ns_conns := %s; ns_info := []; ns_known := []; ns_seen := []; ns_down := false |}", selfEpoch, CoqList(cs))
-	cf.Add(fmt.Sprintf("{| fc_init := %s; fc_hist := %s |}", init, CoqList(hs)), label)
+	cf.Add(fmt.Sprintf("CFlood {| fc_init := %s; fc_hist := %s |}", init, CoqList(hs)), label)
 	return
 }
 
@@ -612,6 +613,88 @@ func exhaustiveSmall(c *Ctx, im *Impl, cf *CaseFile) {
 	}
 	im.Hist("exhaustive-small-scope-histories")
 	im.Extra["exhaustive_small_scope"] = fmt.Sprintf("all %d sequences of length 4 over %d fixed updates", total, n)
+}
+
+// concurrentDelivery: sessions handle their messages in parallel (one runProtocol goroutine per
+// connection), so the same update can reach handleRoutingUpdate from several links at the same moment.
+// Per round 2-4 goroutines, released together, deliver ONE update (an ordinary fresh update, a
+// suspected-duplicate notice about a third node - which only the seen-ID filter stops -, or an ID the
+// node has already seen) each from its own connection.  The connection "tail" delivers nothing, so
+// every thread that gets through the filter relays the update to it: the number of copies on "tail" is
+// the number of threads that processed the update.  Oracle (property text): relayed at most once.
+// Model: Model/FloodConc.v conc_check (0 if seen before, else exactly 1).
+func concurrentDelivery(c *Ctx, im *Impl, cf *CaseFile) {
+	rounds := 400
+	if c.Thorough() {
+		rounds = 6000
+	}
+	r := NewRng(c.Seed ^ 0xc06c06)
+	conns := []string{"k0", "k1", "k2", "k3", "tail"}
+	w := newWorld(conns)
+	defer w.stop()
+	// the third node the notices talk about must be known with the epoch they name
+	w.n.VerifHandleRoutingUpdate(netceptor.VerifRoutingUpdate{NodeID: "third", UpdateID: "third-0", UpdateEpoch: 77, UpdateSequence: 1,
+		Connections: map[string]float64{"k0": 1}, ForwardingNode: "k0"}, "k0")
+	w.observe()
+	bad := 0
+	for round := 0; round < rounds; round++ {
+		nt := 2 + r.Intn(3)
+		kind := r.Intn(3)
+		id := fmt.Sprintf("conc-%d", round)
+		u := netceptor.VerifRoutingUpdate{NodeID: fmt.Sprintf("o%d", round%7), UpdateID: id, UpdateEpoch: 500, UpdateSequence: uint64(round + 1),
+			Connections: map[string]float64{"k0": 1, "x": 2}}
+		seen := false
+		switch kind {
+		case 1: // duplicate notice about a third node
+			u = netceptor.VerifRoutingUpdate{NodeID: "third", UpdateID: id, UpdateEpoch: 78, UpdateSequence: uint64(round + 1),
+				Connections: map[string]float64{}, SuspectedDuplicate: 77}
+		case 2: // an ID seen before (delivered once, sequentially, first)
+			seen = true
+			first := u
+			first.ForwardingNode = "k3"
+			w.n.VerifHandleRoutingUpdate(first, "k3")
+			w.observe()
+			u.UpdateSequence += 1000000 // a later update re-using the ID: only the ID filter can stop it
+		}
+		var start, done sync.WaitGroup
+		start.Add(1)
+		for t := 0; t < nt; t++ {
+			done.Add(1)
+			ut := u
+			ut.ForwardingNode = conns[t]
+			go func(ut netceptor.VerifRoutingUpdate, from string) {
+				defer done.Done()
+				start.Wait()
+				w.n.VerifHandleRoutingUpdate(ut, from)
+			}(ut, conns[t])
+		}
+		start.Done()
+		done.Wait()
+		o := w.observe()
+		perConn := map[string]int{}
+		for _, rl := range o.Relays {
+			if rl[1] == id {
+				perConn[rl[0]]++
+			}
+		}
+		processed := perConn["tail"]
+		for cn, k := range perConn {
+			if k > 1 && bad < 5 {
+				bad++
+				im.Violate(fmt.Sprintf("update %s (%s) delivered by %d sessions at the same moment was relayed %d times to connection %s",
+					id, []string{"ordinary", "duplicate notice", "already seen"}[kind], nt, k, cn), "concurrent-relayed-twice",
+					map[string]interface{}{"round": round, "threads": nt, "kind": kind, "relays": perConn})
+			}
+		}
+		if seen && processed > 0 && bad < 5 {
+			bad++
+			im.Violate(fmt.Sprintf("update ID %s had been seen, yet a concurrent redelivery was relayed", id), "concurrent-seen-relayed", nil)
+		}
+		label := fmt.Sprintf("concurrent round %d threads=%d kind=%d", round, nt, kind)
+		cf.Add(fmt.Sprintf("CConc {| cc_threads := %d; cc_seen := %v; cc_processed := %d |}", nt, seen, processed), label)
+		im.Count(label, true)
+		im.Hist(fmt.Sprintf("concurrent:%s", []string{"ordinary", "duplicate-notice", "seen-id"}[kind]))
+	}
 }
 
 // meshFloodBound: real nodes on random cyclic topologies; every routing message on every link
